@@ -1,74 +1,79 @@
 (** The scalar arithmetic inside the guarded block of each adaptive [_update] as written in /repo
-    today ([Gen/SrcAdapt.v], regenerated on every run by tools/py2coq_num.py) equals the
-    hand-written update kernels over the reals, for all inputs: the decaying gain, the sign and
-    size of the Robbins-Monro step of every log-scale (global, componentwise, eigenvector,
-    solid-angle concentration), the Veitch increment, and the ratio 0 of a virtual move that leaves
-    the prior.  Decimal literals of the source are read as exact rationals. *)
+    today ([Gen/SrcAdapt.v], regenerated on every run by tools/py2coq_num.py, which follows the
+    temporaries of the block symbolically) equals the hand-written update kernels over the reals,
+    for all inputs: the new value of every log-scale (global, componentwise, eigenvector,
+    solid-angle concentration) as a function of the old one, the step count, the acceptance ratio
+    and the proposal's settings - decaying gain, sign and size of the Robbins-Monro step - the Veitch
+    increment, and the ratio 0 of a virtual move that leaves the prior.  Decimal literals of the
+    source are read as exact rationals. *)
 From Coq Require Import Reals Lra ZArith List Bool.
 From Epsie Require Import Base Num NumR Adapt AdaptM Gen.SrcAdapt.
 Local Open Scope R_scope.
 
 Ltac num_unfold := cbn [nadd nsub nmul ndiv nopp nexp nln nofZ nzero none nltb nisneginf NumReal].
 
-(** equalities of real expressions that differ by how constants are written (3/5 vs 6/10, /10 vs 1/10):
-    descend through the shared structure, then linear / field arithmetic *)
+(** equalities of real expressions that differ by how constants are written (3/5 vs 6/10, /10 vs 1/10)
+    and by the order of factors: descend through the shared structure, then ring / field arithmetic *)
 Ltac rsolve :=
-  first [ reflexivity | lra | (field; lra) | (f_equal; rsolve) ].
+  first [ reflexivity | lra | ring | (field; lra) | (f_equal; rsolve) ].
 
-(** ** gains *)
-Lemma src_veitch_factor_tie (p : @veitch R) nsteps :
-  src_veitch_factor (IZR (dkZ nsteps (v_start p))) (v_decay p) = veitch_factor p nsteps.
-Proof. unfold src_veitch_factor, veitch_factor, ntenth, nten, npow. num_unfold. rsolve. Qed.
-
-Lemma src_rm_factor_tie (dk : Z) (c : R) :
-  src_at_factor (IZR dk) c = rm_factor dk c /\ src_eig_factor (IZR dk) c = rm_factor dk c
-  /\ src_kappa_factor (IZR dk) c = rm_factor dk c.
-Proof.
-  unfold src_at_factor, src_eig_factor, src_kappa_factor, rm_factor, n06, nten, npow. num_unfold.
-  repeat split; rsolve.
-Qed.
+(** the gain dk^(-0.6) - c written with 3/5 or 6/10 *)
+Lemma gain_35 (dk : Z) (c : R) : @npow R _ (IZR dk) (- (3 / 5)) - c = rm_factor dk c.
+Proof. unfold rm_factor, n06, nten, npow. num_unfold. rsolve. Qed.
 
 (** ** log-scale steps *)
-Lemma src_at_log_tie (p : @at_state R) nsteps ar x : at_window p nsteps = true ->
-  a_loglam (at_update p nsteps ar x)
-  = src_at_log (a_loglam p) (src_at_factor (IZR (dkZ nsteps (a_start p))) (a_decayc p)) ar (a_target p).
+Lemma src_at_log_val (cur ar c t : R) (dk : Z) : src_at_log cur (IZR dk) ar c t = cur + rm_factor dk c * (ar - t).
 Proof.
-  intros Hw. unfold at_update. rewrite Hw. cbn [a_loglam]. destruct (src_rm_factor_tie (dkZ nsteps (a_start p)) (a_decayc p)) as (E & _).
-  rewrite E. unfold src_at_log. num_unfold. ring.
+  rewrite <- gain_35. unfold src_at_log, npow. num_unfold.
+  set (g := exp (- (3 / 5) * ln (IZR dk))).
+  replace (exp (- (IZR 3 / IZR 5) * ln (IZR dk))) with g by (unfold g; f_equal; f_equal; lra). ring.
+Qed.
+Lemma src_eig_log_val (cur ar c t : R) (dk : Z) : src_eig_log cur (IZR dk) ar c t = cur + rm_factor dk c * (ar - t).
+Proof.
+  rewrite <- gain_35. unfold src_eig_log, npow. num_unfold.
+  set (g := exp (- (3 / 5) * ln (IZR dk))).
+  replace (exp (- (IZR 3 / IZR 5) * ln (IZR dk))) with g by (unfold g; f_equal; f_equal; lra). ring.
+Qed.
+Lemma src_kappa_log_val (cur ar c t : R) (dk : Z) : src_kappa_log cur (IZR dk) ar c t = cur + rm_factor dk c * (t - ar).
+Proof.
+  rewrite <- gain_35. unfold src_kappa_log, npow. num_unfold.
+  set (g := exp (- (3 / 5) * ln (IZR dk))).
+  replace (exp (- (IZR 3 / IZR 5) * ln (IZR dk))) with g by (unfold g; f_equal; f_equal; lra). ring.
 Qed.
 
+Lemma src_at_log_tie (p : @at_state R) nsteps ar x : at_window p nsteps = true ->
+  a_loglam (at_update p nsteps ar x) = src_at_log (a_loglam p) (IZR (dkZ nsteps (a_start p))) ar (a_decayc p) (a_target p).
+Proof. intros Hw. rewrite src_at_log_val. unfold at_update. rewrite Hw. cbn [a_loglam]. num_unfold. reflexivity. Qed.
+
 Lemma src_atf_log_tie (p : @atf_state R) nsteps ar x : atf_window p nsteps = true ->
-  f_loglam (atf_update p nsteps ar x)
-  = src_at_log (f_loglam p) (src_at_factor (IZR (dkZ nsteps (f_start p))) (f_decayc p)) ar (f_target p).
-Proof.
-  intros Hw. unfold atf_update. rewrite Hw. cbn [f_loglam]. destruct (src_rm_factor_tie (dkZ nsteps (f_start p)) (f_decayc p)) as (E & _).
-  rewrite E. unfold src_at_log. num_unfold. ring.
-Qed.
+  f_loglam (atf_update p nsteps ar x) = src_at_log (f_loglam p) (IZR (dkZ nsteps (f_start p))) ar (f_decayc p) (f_target p).
+Proof. intros Hw. rewrite src_at_log_val. unfold atf_update. rewrite Hw. cbn [f_loglam]. num_unfold. reflexivity. Qed.
+
+Lemma src_cw_dlog_val (d ar t : R) : src_cw_dlog d ar t = d * (ar - t).
+Proof. unfold src_cw_dlog. num_unfold. ring. Qed.
 
 Lemma nth_map2_loglam (d t : R) : forall (ls als : list R) k, (k < length ls)%nat -> (k < length als)%nat ->
   nth k (map2 (fun l a => l + d * (a - t)) ls als) 0 = nth k ls 0 + src_cw_dlog d (nth k als 0) t.
 Proof.
   induction ls as [|l ls IH]; intros [|a als] k Hk Hk'; cbn in Hk, Hk'; try (exfalso; inversion Hk; fail); try (exfalso; inversion Hk'; fail).
-  destruct k; cbn [map2 nth]; [unfold src_cw_dlog; num_unfold; ring|]. apply IH; auto with arith.
+  destruct k; cbn [map2 nth]; [now rewrite src_cw_dlog_val|]. apply IH; auto with arith.
 Qed.
 
 Lemma src_cw_log_tie (p : @atc_state R) nsteps ars x i : atc_window p nsteps = true ->
   (i < length (c_loglam p))%nat -> (i < length ars)%nat ->
   nth i (c_loglam (atc_update p nsteps ars x)) 0
-  = nth i (c_loglam p) 0 + src_cw_dlog (src_at_factor (IZR (dkZ nsteps (c_start p))) (c_decayc p)) (nth i ars 0) (c_target p).
+  = nth i (c_loglam p) 0 + src_cw_dlog (rm_factor (dkZ nsteps (c_start p)) (c_decayc p)) (nth i ars 0) (c_target p).
 Proof.
   intros Hw Hi Ha. unfold atc_update. rewrite Hw. cbn [c_loglam].
-  destruct (src_rm_factor_tie (dkZ nsteps (c_start p)) (c_decayc p)) as (E & _). rewrite E.
   apply (nth_map2_loglam (rm_factor (dkZ nsteps (c_start p)) (c_decayc p)) (c_target p)); assumption.
 Qed.
 
 Lemma src_cwf_log_tie (p : @atcf_state R) nsteps ars x i : atcf_window p nsteps = true ->
   (i < length (g_loglam p))%nat -> (i < length ars)%nat ->
   nth i (g_loglam (atcf_update p nsteps ars x)) 0
-  = nth i (g_loglam p) 0 + src_cw_dlog (src_at_factor (IZR (dkZ nsteps (g_start p))) (g_decayc p)) (nth i ars 0) (g_target p).
+  = nth i (g_loglam p) 0 + src_cw_dlog (rm_factor (dkZ nsteps (g_start p)) (g_decayc p)) (nth i ars 0) (g_target p).
 Proof.
   intros Hw Hi Ha. unfold atcf_update. rewrite Hw. cbn [g_loglam].
-  destruct (src_rm_factor_tie (dkZ nsteps (g_start p)) (g_decayc p)) as (E & _). rewrite E.
   apply (nth_map2_loglam (rm_factor (dkZ nsteps (g_start p)) (g_decayc p)) (g_target p)); assumption.
 Qed.
 
@@ -78,27 +83,28 @@ Lemma src_cw_forced_tie (logp inner : R) : src_cw_dlog_ar logp inner = inner.
 Proof. unfold src_cw_dlog_ar. num_unfold. reflexivity. Qed.
 
 Lemma src_eig_log_tie (p : @rm_state R) nsteps ar : rm_window p nsteps = true ->
-  r_log (eig_update p nsteps ar)
-  = src_eig_log (r_log p) (src_eig_factor (IZR (dkZ nsteps (r_start p))) (r_decayc p)) ar (r_target p).
-Proof.
-  intros Hw. unfold eig_update. rewrite Hw. cbn [r_log]. destruct (src_rm_factor_tie (dkZ nsteps (r_start p)) (r_decayc p)) as (_ & E & _).
-  rewrite E. unfold src_eig_log. num_unfold. ring.
-Qed.
+  r_log (eig_update p nsteps ar) = src_eig_log (r_log p) (IZR (dkZ nsteps (r_start p))) ar (r_decayc p) (r_target p).
+Proof. intros Hw. rewrite src_eig_log_val. unfold eig_update. rewrite Hw. cbn [r_log]. num_unfold. reflexivity. Qed.
 
 Lemma src_kappa_log_tie (p : @rm_state R) nsteps ar : rm_window p nsteps = true ->
-  r_log (kappa_update p nsteps ar)
-  = src_kappa_log (r_log p) (src_kappa_factor (IZR (dkZ nsteps (r_start p))) (r_decayc p)) ar (r_target p).
-Proof.
-  intros Hw. unfold kappa_update. rewrite Hw. cbn [r_log]. destruct (src_rm_factor_tie (dkZ nsteps (r_start p)) (r_decayc p)) as (_ & _ & E).
-  rewrite E. unfold src_kappa_log. num_unfold. ring.
-Qed.
+  r_log (kappa_update p nsteps ar) = src_kappa_log (r_log p) (IZR (dkZ nsteps (r_start p))) ar (r_decayc p) (r_target p).
+Proof. intros Hw. rewrite src_kappa_log_val. unfold kappa_update. rewrite Hw. cbn [r_log]. num_unfold. reflexivity. Qed.
 
 (** ** Veitch increment *)
-Lemma src_veitch_step_tie (accepted : bool) (target d s delta : R) :
-  veitch_new_std (if accepted then 1 - target else - target) d s delta
-  = (let n := s + src_veitch_dsigma (src_veitch_alpha accepted target) d delta in if Rltb n 0 then s else n).
+Lemma src_veitch_inc_val (p : @veitch R) nsteps (accepted : bool) (delta : R) :
+  src_veitch_inc (IZR (dkZ nsteps (v_start p))) accepted (v_decay p) delta (v_target p)
+  = (if accepted then 1 - v_target p else - v_target p) * veitch_factor p nsteps * delta / 10.
 Proof.
-  unfold veitch_new_std, src_veitch_dsigma, src_veitch_alpha, nten. num_unfold. cbv zeta.
+  unfold src_veitch_inc, veitch_factor, ntenth, nten, npow. num_unfold.
+  set (g := exp (- v_decay p * ln (IZR (dkZ nsteps (v_start p))))).
+  destruct accepted; unfold Rdiv; try rewrite Rinv_1; ring_simplify; try reflexivity; field.
+Qed.
+
+Lemma src_veitch_step_tie (p : @veitch R) nsteps (accepted : bool) (s delta : R) :
+  veitch_new_std (if accepted then 1 - v_target p else - v_target p) (veitch_factor p nsteps) s delta
+  = (let n := s + src_veitch_inc (IZR (dkZ nsteps (v_start p))) accepted (v_decay p) delta (v_target p) in if Rltb n 0 then s else n).
+Proof.
+  rewrite src_veitch_inc_val. unfold veitch_new_std, nten. num_unfold. cbv zeta.
   match goal with
   | |- (if Rltb ?a 0 then _ else _) = (if Rltb ?b 0 then _ else _) => replace b with a by (destruct accepted; field)
   end. reflexivity.
